@@ -5,7 +5,7 @@ import json, sys
 CLAIMED = {
  # id: (category, technique, text, note, design_ref)
  "C02": ("exploration", "runtime monitoring: differential reference-model oracle (complete language equality by product walk) over observed automata of each pipeline stage",
-         "Every generated pattern is run through the real token pipeline (nfa.Parse, ToDFA, Minimize, EliminateDeadStates, ReindexStates, Spec.DFA) and each observed automaton is compared with an independent reference automaton by a complete product-walk decision (not string sampling). Held on the patterns generated; exhaustive for the enumerated small-tree sub-spaces.",
+         "Every generated pattern is run through the real token pipeline (nfa.Parse, ToDFA, Minimize, EliminateDeadStates, ReindexStates, Spec.DFA) and each observed automaton is compared with an independent reference automaton by a complete product-walk decision (not string sampling). Held on the patterns generated; exhaustive for the enumerated small-tree sub-spaces. Metamorphic families where no reference meaning exists: \\p{X} vs \\P{X} complements; repetition counts no machine integer holds (probed in a memory-capped child).",
          "Trusted base: the harness' reference reading of docs/5-definitions.md (R2: Thompson + subset construction, 600 lines, no shared code with emerge or moorara/algo). Inputs not generated are not covered.", "5/C02"),
  "C10": ("exploration", "runtime monitoring: three-way differential oracle (followpos route vs NFA route vs reference automaton), complete language equality per pattern",
          "Each generated pattern is compiled by both real routes; the two observed DFAs and the reference automaton are compared pairwise by product walk. Population is aimed at nullable operands, nullable wholes and repetition ranges.",
@@ -20,17 +20,17 @@ CLAIMED = {
          "All (reachable state, code point) pairs of the coded scanner table are observed and bisimulated against the documented token automata; tens of thousands of generated texts are scanned by the real lexer and every token (kind, lexeme, offset, line, column) and the final EOF/lexical error position are compared with the reference scanner.",
          "Trusted base: R1 scanner components transcribed from the token table. If the shim no longer builds the exhaustive part is skipped and the evidence says so. One-letter TOKEN is masked (documents disagree).", "5/C05"),
  "C18": ("exploration", "runtime monitoring: callback-trace oracle (recorded token/production/evaluation callbacks vs the post-order of a reference derivation) with error injection at every step",
-         "The real lexer+parser is run on generated specifications with recording callbacks; the log, the evaluation arguments (values and positions) and the final value are compared with the reference reader's derivation; for every step of sampled runs a sentinel error is injected and the parse must stop there and return it.",
+         "The real lexer+parser is run on generated specifications with recording callbacks; the log, the evaluation arguments (values and positions) and the final value are compared with the reference reader's derivation, also with callbacks that return nil results; for every step of sampled runs a sentinel error is injected and the parse must stop there and return it.",
          "Trusted base: R1 reference reader (cross-validated against the tables by C04).", "5/C18"),
  "C01": ("exploration", "runtime monitoring: differential reference-model oracle (bounded-language least fixpoints of the EBNF text vs of the observed productions) over observed spec.Parse results",
          "Each generated specification is parsed by the real spec.Parse; for start and every user rule the set of terminal strings up to length k derivable from the observed productions is compared with the set the EBNF operator tree denotes (independent reader + fixpoint evaluator); plus structural invariants of synthesised non-terminals. Exhaustive for small operator trees and for the operator-selection families.",
          "Trusted base: R1 reader and R3 bounded-language evaluator. Equality is up to length k (adaptive, at most 5 quick / 7 thorough). Open findings D2a/D2b (name collisions) are listed in known_findings.json.", "5/C01"),
  "C20": ("exploration", "runtime monitoring: reference-reader oracle over observed diagnostics (first offending element, position, tail independence)",
-         "Every single-token edit and truncation of generated specifications, and stray/unterminated lexical elements at every gap, are fed to spec.Parse, ebnf ast.Parse and Parser.Parse (CLI for a sample); the reported file:line:col must be that of the first offending element per the reference reader, early ends must not blame an earlier token, and replacing the tail must not change the message.",
+         "Every single-token edit and truncation of generated specifications, and stray/unterminated lexical elements at every gap, are fed to spec.Parse, ebnf ast.Parse and Parser.Parse (CLI for a sample); the reported file:line:col must be that of the first offending element per the reference reader, early ends must not blame an earlier token, and replacing the tail (also by text with undecodable bytes) must not change the message; undecodable bytes after every kind of separator must be reported at their own line and column; an earlier well-formedness defect must not hide the syntax position (spec.Parse).",
          "Trusted base: R1 reader (its error index is cross-validated against the tables by C04).", "5/C20"),
  "C06": ("exploration", "runtime monitoring: differential oracle over observed tables - emerge's table is executed by an independent shift-reduce driver on all strings to a bound and compared with the bounded language / an independent LALR(1) table / a Pratt parser",
-         "For textbook grammar families, random grammars and operator grammars the real LALRParsingTable() is observed: accepted tables are executed on every terminal string up to a length bound (accept must equal membership in the language of the text as written, or the verdict of the reference table when directives decided conflicts), operator-grammar parses are compared with a Pratt parser, and accept/reject is compared with an independent LALR(1) construction using the documented resolution rule; rejections must report conflicts the grammar has.",
-         "Trusted base: R4 LALR construction + driver, R3 bounded languages, Pratt parser. Degenerate grammars (cyclic / unproductive non-terminals) and >2-way conflicts are masked.", "5/C06"),
+         "For textbook grammar families, random grammars and operator grammars the real LALRParsingTable() is observed: accepted tables are executed on every terminal string up to a length bound (accept must equal membership in the language of the text as written, or the verdict of the reference table when directives decided conflicts), operator-grammar parses are compared with a Pratt parser, and accept/reject is compared with an independent LALR(1) construction using the documented resolution rule; rejections must report conflicts the grammar has and are cross-checked against an independent EBNF-to-CFG translation of the text; accepted tables are also walked in lock step with the reference table (when the walk succeeds the verdict covers every string, not only those up to the bound).",
+         "Trusted base: R4 LALR construction + driver, R3 bounded languages, Pratt parser, the independent translation. Grammars that are degenerate AS WRITTEN (cyclic / unproductive non-terminals) and >2-way conflicts are masked; a degenerate production set for a non-degenerate text is a violation.", "5/C06"),
  "C07": ("exploration", "runtime monitoring: reference-model oracle over observed accept/reject, parsed diagnostics and recorded definitions",
          "Well-formed specifications and ones seeded with every subset of up to 2 (quick) / 3 (thorough) of the eight defect kinds are parsed by the real spec.Parse (+ Spec.DFA for patterns); the defects present are recomputed from the text by the reference reader; rejected iff non-empty, every diagnostic claim must be a present defect, accepted specifications must carry exactly one correct definition per terminal.",
          "Trusted base: R1 reader + defect model (c07.go). Open finding D18 (literal text equals a token name).", "5/C07"),
@@ -44,8 +44,8 @@ CLAIMED = {
          "For each base specification the real spec.Parse / ast.Parse / lexer are run on seeded re-layouts of the same token sequence and on a padding sweep (every padding amount in the thorough tier; windows below each buffer multiple plus every 8th amount in the quick tier) at three places; the canonical rendering of the result must be identical and the token positions must equal the reference scanner's on each variant.",
          "Trusted base: R1 scanner for absolute positions; canonical rendering in specobs.go/astobs.go.", "5/C13"),
  "C14": ("exploration", "runtime monitoring: crash/hang monitor over worker processes (input written to disk before each call, recovered panics, worker death, nil-result check, per-input watchdog) and an exit-status/stack-trace monitor over real CLI processes",
-         "Hostile inputs (random bytes, every prefix of fixtures, byte/token mutations, token soup, ill-formed specifications, deep nesting, all short pattern strings, non-ASCII escapes, large repetition counts) are fed to every library entry point inside sharded worker processes, and ~65 command lines to the real binary; any panic, worker death, nil result without error, empty error, stack trace or zero exit on error is a violation.",
-         "Hang clause decided as bounded progress: 120 s per input, only inputs <= 256 bytes count. Resource-bound inputs (counts > 100) are excluded.", "5/C14"),
+         "Hostile inputs (random bytes, every prefix of fixtures, byte/token mutations, token soup, ill-formed specifications, deep nesting, all short pattern strings, non-ASCII escapes, large repetition counts) are fed to every library entry point inside sharded worker processes, and ~150 command lines (awkward output locations and names included) to the real binary; hash-flooding symbol names, odd-shape specifications and the generator stage are part of the workload; any panic, worker death, nil result without error, empty error, stack trace or zero exit on error is a violation.",
+         "Hang clause decided as bounded progress in CPU time of the worker (40 CPU-s for inputs <= 1 KiB, 120 CPU-s for <= 4 KiB; larger inputs and wall-clock stalls are inconclusive). Patterns with huge repetition counts are probed in a child process whose address space is capped (open finding D28: counts >= 2^24 exhaust memory).", "5/C14"),
  "C15": ("exploration", "runtime monitoring: repeated-execution differential monitor (K fresh processes + K in-process repetitions, byte comparison of files, diagnostics and exit status)",
          "Each specification (fixtures, multi-state terminals, several conflicts / invalid patterns / defects at once, LALR conflicts) is run K times in fresh processes of the real CLI and K times in-process; every observation must be byte-identical after stripping ANSI sequences and non-ASCII decoration.",
          "Each process has its own hash/map seeds; K=6 (quick, 2 for specifications that take seconds) / 20 (thorough) repetitions sample them; an order that differs with lower probability than that can be missed.", "5/C15"),
@@ -62,7 +62,7 @@ CLAIMED = {
          "Emitted lexers are built and driven with inputs generated from their automata (accepting walks, near-misses, stray and multi-byte characters, non-discardable white space, small read chunks) and with paddings that move tokens across every buffer-half alignment; kind, lexeme, offset, line, column and the final EOF/error must equal the reference simulator's.",
          "Trusted base: R5 simulator (60 lines) over Spec.DFA(). Lexemes shorter than one buffer half.", "5/C19"),
  "C17": ("exploration", "runtime monitoring: Go race detector over concurrent parses (reports parsed and classified by owning package) plus sequential-history differential monitor against isolated fresh-process baselines",
-         "About 60 specifications and patterns are processed in many orders in one process and every result is compared with the result of a fresh process that handled only that item; a race-instrumented build runs 16 goroutines over the same items and every race report is attributed to its owning package: any report owned by emerge is a violation; reports owned only by the dependency are the open finding D16.",
+         "About 60 specifications and patterns are processed in many orders in one process and every result is compared with the result of a fresh process that handled only that item; results are also HELD while other texts are processed and re-read afterwards, and sources that fail part-way precede valid items; a race-instrumented build runs 16 goroutines over the same items and every race report is attributed to its owning package: any report owned by emerge is a violation; reports owned only by the dependency are the open finding D16.",
          "The detector generalises over timings only for unsynchronised accesses actually executed; while dependency races are present concurrent result mismatches cannot be attributed and are not judged.", "5/C17"),
 }
 
